@@ -237,6 +237,7 @@ package core
 // verified): the result shares no object with the argument; never panics.
 //@ func Canonicalize returns y, err
 //@   trusted
+//@   logged
 //@   modifies nothing
 //@   ensures err == nil ==> ref(y) == nil || fresh(y)
 
